@@ -189,6 +189,10 @@ func deadLabelPrograms() []*model.Script {
 		{lab("L1"), mcmd("t"), {Kind: model.SEnd}},
 		{mcmd("u"), lab("L1"), mcmd("t")},
 		{lab("L1"), {Kind: model.SIf, Arms: []model.Arm{{Cond: mflag("Q"), Body: []model.Stmt{mcmd("t")}}}}, lab("L2"), mcmd("v")},
+		{mcmd("u"), {Kind: model.SSwitch, Operand: mvar("Z"), Cases: []model.Case{{Val: 1, Body: []model.Stmt{lab("L1"), mcmd("t")}}}}},
+		{{Kind: model.SIf, Arms: []model.Arm{{Cond: mflag("Q"), Body: []model.Stmt{mcmd("u")}}}, HasElse: true, Else: []model.Stmt{lab("L1"), mcmd("t")}}},
+		{{Kind: model.SWhile, Cond: mflag("Q"), Body: []model.Stmt{{Kind: model.SDoWhile, Cond: mflag("R"), Body: []model.Stmt{lab("L1"), mcmd("t")}}}}},
+		{{Kind: model.SSwitch, Operand: mvar("Z"), Cases: []model.Case{{Default: true, Body: []model.Stmt{{Kind: model.SSwitch, Operand: mvar("Y"), Cases: []model.Case{{Val: 2}, {Val: 3, Body: []model.Stmt{lab("L1"), mcmd("t")}}}}}}}}},
 	}
 	for ti, tail := range tails {
 		for k := 0; k < 8; k++ {
@@ -235,13 +239,6 @@ func runC04(tier string) int {
 		r.Add("programs", 1)
 		checkClosure(r, fp)
 	})
-	for i, sc := range deadLabelPrograms() {
-		scripts := []*model.Script{sc}
-		fp := &fileProgram{Desc: fmt.Sprintf("dead-label program %d", i), Src: model.Print(scripts), Owners: []string{"S"}, UserLabels: model.UserLabels(scripts), External: ext, Scripts: scripts}
-		r.Add("programs", 1)
-		r.Add("dead_label_programs", 1)
-		checkClosure(r, fp)
-	}
 	for _, fp := range fileLevelPrograms(tier) {
 		r.Add("programs", 1)
 		r.Add("file_level_programs", 1)
